@@ -85,15 +85,10 @@ class Duck:
         self.df = self.session.createDataFrame(cc.ROWS, cc.DDL)
 
     def run_row(self, cols, df=None):
-        got = (df or self.df).select("id", *cols).collect()
-        got.sort(key=lambda r: r[0])
-        return [[cc.canon(r[k + 1]) for r in got] for k in range(len(cols))]
+        return cc.run_row(df or self.df, cols)
 
     def run_agg(self, cols):
-        F = self.F
-        a = self.df.where(F.col("id") <= 5).agg(*cols).collect()[0]
-        b = self.df.where(F.col("id") == 6).agg(*cols).collect()[0]
-        return [[cc.canon(a[k]), cc.canon(b[k])] for k in range(len(cols))]
+        return cc.run_agg(self.df, self.F, cols)
 
     def evaluate(self, calls, chunk=24):
         """{call id: {"duck": [...]} | {"error": str}}; several expressions per SELECT, one by one after a failure"""
@@ -301,10 +296,20 @@ def exported_functions():
     return sorted(n for n, f in vars(F).items() if inspect.isfunction(f) and hasattr(f, "unsupported_engines"))
 
 
+def reads_table(call):
+    """does the call read any table column (otherwise the all-NULL row is not a NULL input for it)"""
+    for a in list(call["args"]) + list(call["kwargs"].values()):
+        if "c" in a or ("e" in a and any(t in a["e"] for t in ("F.col(", "F.struct(", "F.create_map(", "F.encode("))):
+            return True
+    return False
+
+
 def aspect_of(call, k, spark_v, duck_v):
+    if not reads_table(call):
+        return "value"
     if call["mode"] == "row" and k == cc.NULL_ROW_INDEX:
         return "null-input"
-    if call["mode"] == "agg" and k == 1:
+    if call["mode"] == "agg" and k == cc.AGG_NULL_GROUP:
         return "null-input"
     return "value"
 
@@ -393,9 +398,11 @@ def run(ctx: core.Ctx):
                 informational.append(item)
                 continue
             hist_verdict["deviates:" + asp] = hist_verdict.get("deviates:" + asp, 0) + 1
-            e = per_sig.setdefault((fn, asp, r["tag"]), {"tpl": set(), "items": []})
+            e = per_sig.setdefault((fn, asp, None if asp == "null-input" else r["tag"]), {"tpl": set(), "items": []})
             e["tpl"].add(tno)
             item["call_spec"] = {kk: r[kk] for kk in ("id", "fn", "mode", "args", "kwargs")}
+            if r["mode"] == "agg":
+                item["group"] = cc.AGG_GROUPS[k][0]
             if r["mode"] == "row":
                 item["table_row"] = {c: cc.show(cc.canon(v)) for c, v in zip(cc.COLS, cc.ROWS[k])
                                      if any(c in json.dumps(a) for a in r["args"])}
@@ -498,7 +505,8 @@ def run(ctx: core.Ctx):
     ctx.coverage.update({
         "evaluations": evaluations + n_model, "distinct_nontrivial": nontrivial,
         "rule": "T3a evaluation = (recorded call, table row | aggregate group); calls = per-function argument templates over a typed "
-                "table (5 ordinary rows + 1 all-NULL row; aggregates over the 5 ordinary rows and over the NULL row alone); "
+                "table (5 ordinary rows + 1 all-NULL row; every aggregate over the 5 ordinary rows, the NULL row alone, and sub-frames "
+                "of exactly 1, 2 and 3 rows); optional/int arguments additionally at 0, 1, a negative value and omitted; "
                 "non-trivial = ordinary row whose Spark value is non-NULL; distinct by (call id, row). Floats: bit-exact, else <= "
                 f"{cc.ULP_BOUND} ulp (libm vs StrictMath), statistical aggregates within the relative bound listed in "
                 "checks/c17_cases.REL_BOUND; int vs float of the same number is counted as agreement "
@@ -623,11 +631,9 @@ recs = [json.loads(l) for l in open("/verif/oracle/c17_pyspark.jsonl")]
 def run(df, F, calls):
     out = {}
     def row(cols):
-        got = df.select("id", *cols).collect(); got.sort(key=lambda r: r[0])
-        return [[cc.canon(r[k + 1]) for r in got] for k in range(len(cols))]
+        return cc.run_row(df, cols)
     def agg(cols):
-        a = df.where(F.col("id") <= 5).agg(*cols).collect()[0]; b = df.where(F.col("id") == 6).agg(*cols).collect()[0]
-        return [[cc.canon(a[k]), cc.canon(b[k])] for k in range(len(cols))]
+        return cc.run_agg(df, F, cols)
     for mode, runner in (("row", row), ("agg", agg)):
         pend = []
         for c in calls:
